@@ -78,9 +78,13 @@ SHAPE_PARAMS = {
 TEXTS = ['hello', 'a b', 'NGC 1234', 'x;y', 'a; b; c', ';', 'tag#1', '# leading hash', 'k=v', 'text=fake', 'a=b;c#d e',
          'α Cen é°', "it's", 'say "hi"', ' padded ', '', 'UPPER lower', 'circle(1,2,3)', '-minus', 'global',
          'include=0', 'a,b', 'a|b', 'color=red tag=x', 'Source_17b', 'x' * 60, 'fk5; circle', 'two  spaces', '(paren)', 'a:b:c',
-         '12h 30m', 'r=5"']
+         '12h 30m', 'r=5"',
+         # '=' with blanks around it; characters that str.splitlines() treats as line boundaries but the DS9 line grammar
+         # does not (form feed, vertical tab, FS/GS/RS, NEL, LS, PS); a tab
+         'S/N = 5.2', 'a =b', 'a= b', 'page\x0cbreak', 'v\x0bt', 'fs\x1cgs\x1drs\x1eus\x1fend', 'nel\x85x', 'ls\u2028x', 'ps\u2029x',
+         'tab\tx']
 NUMERIC_TEXTS = ['42', '007', '1e3', '3.14', 'nan', 'inf', '-5', '+7', ' 12 ', '1_000', 'Infinity', '0']
-TAGS = ['a', 'group 1', 'src', 'bkg', 'Tag-3', 'x_y', 'A B C', '1', '2.5', 'α', 'a#b', 'k=v', 'Group 1', 'b']
+TAGS = ['k = v', 'g\x0c1', 'a', 'group 1', 'src', 'bkg', 'Tag-3', 'x_y', 'A B C', '1', '2.5', 'α', 'a#b', 'k=v', 'Group 1', 'b']
 COLORS = ['red', 'green', 'blue', 'cyan', 'magenta', 'yellow', 'black', 'white', '#ff0000', '#0F0', '#12ab9F', 'Red', '#000000']
 FLAGS = ['select', 'highlite', 'fixed', 'edit', 'move', 'rotate', 'delete', 'source', 'background']
 DROPPED_META = [('label', 'my label'), ('comment', 'a comment'), ('name', 'n1'), ('type', 'ann'), ('frame', 'x'), ('label', 'L 2')]
